@@ -37,14 +37,13 @@ func c13outstanding(sl []c13slot, ts uint64) int {
 
 func c13check(tag string, sl []c13slot, du, prev uint64) {
 	vf.Assert(tag+".monotone", du >= prev)
+	advanced := du > prev
 	for _, s := range sl {
-		// (b) never at or beyond an unfinished index, unless it already stood there when it began
-		stoodAny := false
-		for _, o := range sl {
-			stoodAny = vf.Or(stoodAny, vf.And(vf.And(o.ts == s.ts, vf.Not(o.done)), o.stood))
-		}
+		// (b) DoneUntil never ADVANCES to or beyond an index that is begun more often than
+		// finished: it may stand at or beyond such an index only if it already stood there
+		// when the index began - and then it must stay put until the index is finished.
 		unfinished := vf.And(vf.Not(s.done), c13outstanding(sl, s.ts) > 0)
-		vf.Assert(tag+".not-past-unfinished", vf.Implies(unfinished, vf.Or(du < s.ts, stoodAny)))
+		vf.Assert(tag+".not-past-unfinished", vf.Implies(vf.And(unfinished, advanced), du < s.ts))
 		// (c) catches up: every index <= s.ts finished => DoneUntil >= s.ts
 		allDone := true
 		for _, o := range sl {
@@ -94,10 +93,9 @@ func VH_C13() {
 		vf.ObsU64("C13.du", du)
 		// in a batch the watermark may legitimately have stood at an index when a later Begin of
 		// it was consumed; only monotonicity, catch-up and the strict case are checked
-		for i := range sl {
-			sl[i].stood = vf.And(vf.Not(sl[i].done), du >= sl[i].ts) // weakest sound reading
-		}
-		c13check("C13.batch", sl, du, 0)
+		// only catch-up is checked for a batch; "never advances past unfinished work" needs the
+		// per-mark observation of the non-batch variant
+		c13check("C13.batch", sl, du, du)
 	}
 	vf.Cover("C13.end")
 }
@@ -122,11 +120,16 @@ func VH_C13_Wait() {
 	ctx := &c13ctx{done: make(chan struct{})}
 	cancelAt := vf.Choose("cancelAt", 0, K+1) // K+1 = never
 	var err error
+	var duAtReturn uint64
 	retC := make(chan struct{})
+	started := make(chan struct{})
 	go func() {
+		close(started)
 		err = w.WaitForMark(ctx, wt)
+		duAtReturn = w.DoneUntil() // what the released goroutine itself sees
 		close(retC)
 	}()
+	<-started // the waiter is on its way into WaitForMark before the marks below are sent
 	var sl []c13slot
 	cancelled := false
 	for j := 0; j <= K; j++ {
@@ -167,6 +170,7 @@ func VH_C13_Wait() {
 		}
 		if err == nil {
 			vf.Assert("C13.wait.nil-only-when-reached", w.DoneUntil() >= wt)
+			vf.Assert("C13.wait.nil-only-when-reached-seen-by-waiter", duAtReturn >= wt)
 		} else {
 			vf.Assert("C13.wait.ctx-error", vf.And(cancelled, err == errC13))
 		}
